@@ -300,6 +300,16 @@ func batchDischarge(u *Unit, obls []*Obligation, dir string, perQueryMs int) {
 		}
 		sb.WriteString("(check-sat)\n(pop 1)\n")
 	}
+	// vacuity guard 2: with all facts (incl. assumed callee postconditions) some normal exit must be reachable
+	hasExitCover := false
+	if len(u.exitPCs) > 0 {
+		for nf < len(u.facts) {
+			sb.WriteString("(assert " + u.facts[nf] + ")\n")
+			nf++
+		}
+		sb.WriteString("(push 1)\n(assert " + Or(u.exitPCs...).S + ")\n(check-sat)\n(pop 1)\n")
+		hasExitCover = true
+	}
 	file := filepath.Join(dir, fmt.Sprintf("u%06d.smt2", obls[0].id))
 	if err := os.WriteFile(file, []byte(sb.String()), 0o666); err != nil {
 		return
@@ -330,6 +340,9 @@ func batchDischarge(u *Unit, obls []*Obligation, dir string, perQueryMs int) {
 	if len(answers) > 0 {
 		u.coverStatus = answers[0]
 		answers = answers[1:]
+	}
+	if hasExitCover && len(answers) == len(obls)+1 {
+		u.exitCover = answers[len(answers)-1]
 	}
 	for i, o := range obls {
 		if i >= len(answers) {
